@@ -74,9 +74,13 @@ def run(chk, orch):
             spec["exp_mode"] = "split"
             spec["n_bams"] = 1
             spec["exp_bams"] = None
+            if k % 4 == 2:
+                # several files with file-name grouping (technical replicas): novel isoforms supported by one file only
+                spec.update(n_bams=chk.rng.choice([2, 3]), novel=2, novel_cov=6, novel_one_file=1)
+                opts["read_group"] = "file_name"
             spec["split_gene"] = 1 if k % 2 == 0 else spec.get("split_gene", 0)     # consecutive gene-info records with one span
             spec["long_locus"] = 1 if k % 4 == 1 else spec.get("long_locus", 0)
-            if opts.get("read_group") == "file_name":
+            if opts.get("read_group") == "file_name" and spec["n_bams"] == 1:
                 opts["read_group"] = "tag"
             c1, c2 = common.random_cell(chk.rng), common.random_cell(chk.rng)
             a = {"spec": spec, "opts": common.cell_opts(opts, c1), "opts2": common.cell_opts(opts, c2), "sched": c1["sched"],
